@@ -90,3 +90,49 @@ Proof.
   intros Hk Hi. split; [exact (src_next_mod k i Hk Hi)|]. split; [exact (src_prev_mod k i Hk Hi)|].
   exact (src_prev_next k i Hk Hi).
 Qed.
+
+(* ------------------------------------------------------------------ Rotate
+   The head of Deque.Rotate (Generated/Deque.v, fragment "Deque.Rotate#prefix": the early
+   returns, n %= q.count, modBits := len(q.buf) - 1) is the head of the model's rotate. *)
+From FV Require Import Lib.GoSem.
+
+Section Rotate.
+  Context {A : Type}.
+  Variable nilv : A.
+
+  (* what the model's rotate does once n and modBits are known *)
+  Definition rotate_rest (d : @deque A) (n modBits : Z) : option (@deque A) :=
+    if head d =? tail d then
+      Some (mkDeque (buf d) (Z.land (head d + n) modBits) (Z.land (tail d + n) modBits)
+                    (count d) (minCap d))
+    else
+      match (if n <? 0 then rot_back_to_front nilv (Z.to_nat (- n)) (buf d) (head d) (tail d) modBits
+             else rot_front_to_back nilv (Z.to_nat n) (buf d) (head d) (tail d) modBits) with
+      | Some (b, h, t) => Some (mkDeque b h t (count d) (minCap d))
+      | None => None
+      end.
+
+  Lemma src_rotate (d : @deque A) n0 :
+    cap d < 2 ^ 63 -> - 2 ^ 63 <= count d < 2 ^ 63 -> - 2 ^ 63 <= n0 < 2 ^ 63 ->
+    rotate nilv d n0 =
+    match go_Deque_Rotate_prefix (count d) (cap d) n0 with
+    | Ok None => Some d
+    | Ok (Some (n, modBits)) => rotate_rest d n modBits
+    | Panic | OutOfFuel => None
+    end.
+  Proof.
+    intros Hc Hn H0. pose proof (cap_range d). change (2 ^ 63) with 9223372036854775808 in *.
+    unfold rotate, go_Deque_Rotate_prefix, rotate_rest. cbv zeta.
+    destruct (Z.leb_spec (count d) 1) as [|Hgt]; [reflexivity|].
+    rewrite go_rem_ok by lia. cbn [GoSem.bind].
+    assert (Hr : - 9223372036854775808 <= Z.rem n0 (count d) < 9223372036854775808).
+    { pose proof (Z.rem_bound_abs n0 (count d) ltac:(lia)). lia. }
+    rewrite (wrap64 (Z.rem n0 (count d))) by exact Hr.
+    destruct (Z.rem n0 (count d) =? 0); [reflexivity|].
+    rewrite (wrap64 (cap d - 1)) by lia.
+    destruct (head d =? tail d); [reflexivity|].
+    destruct (Z.rem n0 (count d) <? 0).
+    - destruct (rot_back_to_front nilv _ _ _ _ _) as [[[b h] t]|]; reflexivity.
+    - destruct (rot_front_to_back nilv _ _ _ _ _) as [[[b h] t]|]; reflexivity.
+  Qed.
+End Rotate.
